@@ -352,7 +352,8 @@ def multi_jobs(jobs, tier):
     if tier != "quick":
         clean += [("multi_clean_impostor", MULTI_SENS["accept_keeps_leadership"]),
                   ("multi_clean_free", dict(cands="{1,2}", subs="{1,2}", starts=2, cmds=1, maxb=2, leaderonly=True)),
-                  ("multi_clean_flex13", dict(MULTI_SENS["takeover_ignores_promised_entries"], flex=True, q1=3, q2=1)),
+                  ("multi_clean_flex13", dict(cands="{1,2}", subs="{1,2}", starts=2, cmds=1, maxb=2, leaderonly=True,
+                                              flex=True, q1=3, q2=1)),
                   ("multi_clean_flex31", dict(MULTI_SENS["accept_rewrites_log_blindly"], q1=1, q2=3))]
     for name, kw in clean:
         jobs.submit(name, lambda name=name, kw=kw: mc(M, name, multi_consts(**kw), MULTI_INVS, ["PropStability"],
